@@ -18,8 +18,8 @@ def obligations(tier):
     for w in range(5):
         obs.append(dict(name=f"body_raises[{['Exception subclass','KeyboardInterrupt','SystemExit','CancelMutation','ValueError'][w]}]", func="body_raises", pre=f"which == {w}", timeout=T,
                         bounds="raised at 3 positions of an edit script, backup/output configuration, both formats"))
-    for kind in range(3):
-        obs.append(dict(name=f"save_fails[{['unserializable value','chart cannot be serialized','unencodable character'][kind]}]", func="save_fails", pre=f"kind == {kind}", timeout=T,
+    for kind in range(4):
+        obs.append(dict(name=f"save_fails[{['unserializable value','chart cannot be serialized','unencodable character (cp1252)','lone surrogate (utf-8)'][kind]}]", func="save_fails", pre=f"kind == {kind}", timeout=T,
                         bounds="backup/output configuration, both formats"))
     for ssc in (False, True):
         obs.append(dict(name=f"fs_fault[ssc={ssc}]", func="fs_fault", pre=f"ssc == {ssc}", timeout=T, bounds="fault at the k-th filesystem operation, k symbolic in 1..14, backup/output configuration"))
@@ -40,4 +40,4 @@ def replay(data):
 
 def main(tier):
     return xhprop.main(PROP, tier, FILE, obligations(tier), FUNCTIONS, ASSUMPTIONS, OUTSIDE, signature,
-                       bounds="5 exception classes x 3 positions; 3 save-failure kinds; fault index k in 1..14; x backup/output configurations x both formats")
+                       bounds="5 exception classes x 3 positions; 4 save-failure kinds; fault index k in 1..14; x backup/output configurations x both formats")
